@@ -127,6 +127,10 @@ def derived_atom_lists(fn: ast.AST) -> dict:
         if isinstance(e, ast.Name) and (e.id in derived or e.id == "residue_atoms"):
             return True
         if isinstance(e, (ast.ListComp, ast.GeneratorExp)) and len(e.generators) == 1 and isinstance(e.generators[0].target, ast.Name) and isinstance(e.elt, ast.Name) and e.elt.id == e.generators[0].target.id:
+            t = e.generators[0].target.id
+            # a filter that pins one name (`atom.name == X`) leaves the atoms of that name: taking the first is find_atom's own rule
+            if any(astq.match(c, f"{t}.name == X_") is not None or astq.match(c, f"X_ == {t}.name") is not None for c in e.generators[0].ifs):
+                return False
             return is_src(e.generators[0].iter)
         if isinstance(e, ast.Call) and isinstance(e.func, ast.Name) and e.func.id in ("list", "tuple", "filter", "reversed") and e.args and not e.keywords:
             return is_src(e.args[-1])
